@@ -3,6 +3,6 @@ import J5V.Props.C12
 #print axioms J5V.Props.C12.C12_required_equiv
 #print axioms J5V.Props.C12.C12_array_equiv
 #print axioms J5V.Props.C12.C12_int_inclusivity
-#print axioms J5V.Props.C12.C12_int_cast_counterexample
+#print axioms J5V.Props.C12.C12_int_out_of_range_rejected
 #print axioms J5V.Props.C12.C12_int_reversed_counterexample
 #print axioms J5V.Props.C12.C12_unique_message_counterexample
